@@ -67,8 +67,9 @@ PendOf(q)     == {x[1] : x \in {y \in pend : y[2] = q}}
 QuotesOf(ss)  == {x[2] : x \in {y \in pend : y[1] \in ss}}
 Loc0          == [a |-> "", rm |-> {}, q |-> ""]
 \* Mint.meltsInProgress: quotes between a melt request's PENDING write and its return
-InProgress(q) == PollGuard /\ \E p \in Procs : Kind(p) = "melt" /\ Q(p) = q
-                                /\ pc[p] \in {"m6", "m7", "m8", "ms1", "ms2", "ms3", "r1", "r2", "r3", "i1", "i2", "i3"}
+\* (the entry is removed by a deferred function that takes proofsMu: pc "ret", a step of its own without a storage call)
+InProgPcs     == {"m6", "m7", "m8", "ms1", "ms2", "ms3", "r1", "r2", "r3", "i1", "i2", "i3"}
+InProgress(q) == PollGuard /\ \E p \in Procs : Kind(p) = "melt" /\ Q(p) = q /\ pc[p] \in InProgPcs \cup {"ret"}
 
 Init ==
   /\ used = ToSet(Scn.used)
@@ -90,15 +91,17 @@ Init ==
   /\ crashAt = <<>>
   /\ faulted = FALSE
   /\ faultAt = <<>>
-  /\ last = <<"", "">>
+  /\ last = <<"", "", "">>
 
 (* ---- helpers ---------------------------------------------------------- *)
 CanLock(p, m)  == ~Mutexes \/ mu[m] = "" \/ mu[m] = p
 Holding(p, m)  == IF Mutexes THEN [mu EXCEPT ![m] = p] ELSE mu
 Released(p, m) == IF Mutexes /\ mu[m] = p THEN [mu EXCEPT ![m] = ""] ELSE mu   \* only the holder's unlock has an effect
-Label(p, c)    == last' = <<p, c>>
+Label(p, c)    == last' = <<p, c, "">>
+LabelA(p, c, a) == last' = <<p, c, a>>          \* a Lightning call with the answer it got
 Goto(p, l)     == pc' = [pc EXCEPT ![p] = l]
-Finish(p, r)   == pc' = [pc EXCEPT ![p] = "done"] /\ res' = [res EXCEPT ![p] = r]
+Finish(p, r)   == /\ pc' = [pc EXCEPT ![p] = IF Kind(p) = "melt" /\ pc[p] \in InProgPcs THEN "ret" ELSE "done"]
+                  /\ res' = [res EXCEPT ![p] = r]
 SetLoc(p, f, v) == loc' = [loc EXCEPT ![p][f] = v]
 Use(ss)        == uses' = [s \in Secrets |-> IF s \in ss THEN uses[s] + 1 ELSE uses[s]]
 
@@ -150,11 +153,12 @@ Swap(p) ==
 (* ---- the part of GetMeltQuoteState after the quote row was read PENDING - *)
 (* base: prefix of the program counters; exit(r): what the caller does next  *)
 PollBody(p, q, base, ExitTo(_)) ==
-  \/ /\ pc[p] = base \o "2" /\ Label(p, "ln:OutgoingPaymentStatus")
+  \/ /\ pc[p] = base \o "2"
      /\ \E b \in StatusOf(q) :
-          IF b = "succeeded" THEN Goto(p, base \o "3") /\ UNCHANGED <<mu, res>>
-          ELSE IF b = "failed" \/ (b = "notfound" /\ PollNotFound) THEN Goto(p, base \o "6") /\ UNCHANGED <<mu, res>>
-          ELSE ExitTo("ok:PENDING")
+          /\ LabelA(p, "ln:OutgoingPaymentStatus", b)
+          /\ IF b = "succeeded" THEN Goto(p, base \o "3") /\ UNCHANGED <<mu, res>>
+             ELSE IF b = "failed" \/ (b = "notfound" /\ PollNotFound) THEN Goto(p, base \o "6") /\ UNCHANGED <<mu, res>>
+             ELSE ExitTo("ok:PENDING")
      /\ UNCHANGED <<DB, LN, GH, CR, loc>>
   \/ /\ pc[p] = base \o "3" /\ Label(p, "db:GetPendingProofsByQuote")
      /\ SetLoc(p, "rm", PendOf(q)) /\ Goto(p, base \o "4")
@@ -261,9 +265,10 @@ Melt(p) ==
      /\ Goto(p, IF Internal(q) # "" THEN "i1" ELSE "m7")
      /\ UNCHANGED <<DB, LN, GH, CR, mu, loc, res>>
   \* the payment attempt.  The backend refuses a second attempt for a hash that is in flight or paid.
-  \/ /\ pc[p] = "m7" /\ Label(p, "ln:SendPayment")
+  \/ /\ pc[p] = "m7"
      /\ IF LnFree
         THEN /\ \E a \in PayAnswers :
+                  /\ LabelA(p, "ln:SendPayment", a)
                   /\ IF a = "succeeded" THEN Goto(p, "ms1") /\ UNCHANGED res
                      ELSE IF a = "pending" THEN Finish(p, "ok:PENDING")
                      ELSE Goto(p, "m8") /\ UNCHANGED res
@@ -271,21 +276,22 @@ Melt(p) ==
                      THEN payer' = [payer EXCEPT ![q] = ins] /\ PaySucceeds(q, ins)
                      ELSE UNCHANGED <<pay, payer, uses>>
         ELSE IF pay[q] \in {"inflight", "succeeded"}
-        THEN Goto(p, "m8") /\ UNCHANGED <<pay, payer, uses, res>>
+        THEN Goto(p, "m8") /\ LabelA(p, "ln:SendPayment", "failed") /\ UNCHANGED <<pay, payer, uses, res>>
         ELSE /\ payer' = [payer EXCEPT ![q] = ins]
-             /\ \/ PaySucceeds(q, ins) /\ Goto(p, "ms1") /\ UNCHANGED res
-                \/ pay' = [pay EXCEPT ![q] = "inflight"] /\ Finish(p, "ok:PENDING") /\ UNCHANGED uses
-                \/ pay' = [pay EXCEPT ![q] = "failed"] /\ Goto(p, "m8") /\ UNCHANGED <<uses, res>>
+             /\ \/ PaySucceeds(q, ins) /\ Goto(p, "ms1") /\ LabelA(p, "ln:SendPayment", "succeeded") /\ UNCHANGED res
+                \/ pay' = [pay EXCEPT ![q] = "inflight"] /\ Finish(p, "ok:PENDING") /\ LabelA(p, "ln:SendPayment", "pending") /\ UNCHANGED uses
+                \/ pay' = [pay EXCEPT ![q] = "failed"] /\ Goto(p, "m8") /\ LabelA(p, "ln:SendPayment", "failed") /\ UNCHANGED <<uses, res>>
                 \* transport error: the payment may or may not be on its way
-                \/ pay' = [pay EXCEPT ![q] = "inflight"] /\ Goto(p, "m8") /\ UNCHANGED <<uses, res>>
-                \/ PaySucceeds(q, ins) /\ Goto(p, "m8") /\ UNCHANGED res
-                \/ /\ UNCHANGED <<pay, uses, res>> /\ Goto(p, "m8")
+                \/ pay' = [pay EXCEPT ![q] = "inflight"] /\ Goto(p, "m8") /\ LabelA(p, "ln:SendPayment", "error") /\ UNCHANGED <<uses, res>>
+                \/ PaySucceeds(q, ins) /\ Goto(p, "m8") /\ LabelA(p, "ln:SendPayment", "error") /\ UNCHANGED res
+                \/ /\ UNCHANGED <<pay, uses, res>> /\ Goto(p, "m8") /\ LabelA(p, "ln:SendPayment", "error")
      /\ UNCHANGED <<DB, settled, issues, pays, CR, mu, loc>>
-  \/ /\ pc[p] = "m8" /\ Label(p, "ln:OutgoingPaymentStatus")
+  \/ /\ pc[p] = "m8"
      /\ \E b \in StatusOf(q) :
-          IF b \in {"notfound", "failed"} THEN Goto(p, "r1") /\ UNCHANGED res
-          ELSE IF b = "succeeded" THEN Goto(p, "ms1") /\ UNCHANGED res
-          ELSE Finish(p, "ok:PENDING")
+          /\ LabelA(p, "ln:OutgoingPaymentStatus", b)
+          /\ IF b \in {"notfound", "failed"} THEN Goto(p, "r1") /\ UNCHANGED res
+             ELSE IF b = "succeeded" THEN Goto(p, "ms1") /\ UNCHANGED res
+             ELSE Finish(p, "ok:PENDING")
      /\ UNCHANGED <<DB, LN, GH, CR, mu, loc>>
   \* settleProofs + quote PAID
   \/ /\ pc[p] = "ms1" /\ CanLock(p, "proofs") /\ Label(p, "db:RemovePendingProofs")
@@ -314,6 +320,9 @@ Melt(p) ==
   \/ /\ pc[p] = "r3" /\ Label(p, "db:RemovePendingProofs")
      /\ pend' = {x \in pend : x[1] \notin ins} /\ mu' = Released(p, "proofs") /\ Finish(p, "ok:UNPAID")
      /\ UNCHANGED <<used, sigs, lqs, mqs, LN, GH, CR, loc>>
+  \* the deferred removal from meltsInProgress, under proofsMu
+  \/ /\ pc[p] = "ret" /\ CanLock(p, "proofs") /\ Label(p, "return") /\ Goto(p, "done")
+     /\ UNCHANGED <<DB, LN, GH, CR, mu, loc, res>>
   \* settleQuotesInternally
   \/ /\ pc[p] = "i1" /\ Label(p, "ln:InvoiceStatus") /\ Goto(p, "i2")
      /\ UNCHANGED <<DB, LN, GH, CR, mu, loc, res>>
@@ -396,7 +405,7 @@ PostProcs   == Procs \ ConcProcs
 ConcOver    == \A p \in ConcProcs : Over(p)
 
 Resolve(q) ==   \* an in-flight payment reaches its final outcome
-  /\ ~LnFree /\ pay[q] = "inflight" /\ last' = <<"env", "resolve">>
+  /\ ~LnFree /\ pay[q] = "inflight" /\ last' = <<"env", "resolve", "">>
   /\ \/ PaySucceeds(q, payer[q])
      \/ pay' = [pay EXCEPT ![q] = "failed"] /\ UNCHANGED uses
   /\ UNCHANGED <<DB, settled, payer, issues, pays, CR, mu, pc, loc, res>>
@@ -407,7 +416,7 @@ Crash ==        \* the process dies: every running request stops where it is, lo
   /\ crashAt' = [p \in ConcProcs |-> pc[p]]
   /\ pc' = [p \in Procs |-> IF ~IsPost(p) /\ pc[p] # "done" THEN "dead" ELSE pc[p]]
   /\ mu' = [proofs |-> "", quote |-> ""]
-  /\ last' = <<"env", "crash">>
+  /\ last' = <<"env", "crash", "">>
   /\ UNCHANGED <<DB, LN, GH, loc, res, faulted, faultAt>>
 
 \* the storage call a request is about to make fails.  Every caller returns the error (deferred unlocks run, nothing is
@@ -422,7 +431,7 @@ Fault(p) ==
   /\ Faults /\ ~faulted /\ ~crashed /\ pc[p] \in StoragePcs
   /\ NeedsLock(pc[p]) # "" => CanLock(p, NeedsLock(pc[p]))
   /\ faulted' = TRUE /\ faultAt' = <<Kind(p), pc[p]>>
-  /\ last' = <<p, "fault">>
+  /\ last' = <<p, "fault", pc[p]>>
   /\ IF Kind(p) = "mint" /\ pc[p] \in {"t4", "t5", "t6", "t7"}
      THEN Goto(p, "t8") /\ UNCHANGED <<mu, res>>
      ELSE /\ Finish(p, "err:db")
